@@ -278,7 +278,12 @@ theorem validate_total (unq : Str → Option Str) (atoi : Str → Int) (extra : 
   simp only
   split
   · exact ⟨_, rfl⟩
-  · cases r4 with
+  · rename_i hlen
+    have hlen' : ui.length = 1 := by simpa using hlen
+    match ui, hlen' with
+    | [u], _ =>
+    simp only [List.getElem?_cons_zero]
+    cases r4 with
     | error e => exact ⟨_, rfl⟩
     | ok _ =>
     simp only
@@ -402,6 +407,11 @@ example : (loadModel unquote atoiD (fun _ => none) tinyFlags
 example : (loadModel unquote atoiD (fun _ => none) tinyFlags
     { cmd := [], environ := ["fabio_glob_cache_size=0".toList], prefixes := pfx, props := none }).map (·.map (·.globCacheSize))
     = .ok (.error .globCacheSize) := by rfl
+/-- a `ui.addr` made only of separators parses to zero maps and is rejected by the count check (it must not
+reach `kvs[0]`) -/
+example : (loadModel unquote atoiD (fun _ => none) tinyFlags
+    { cmd := [("ui.addr".toList, ",;".toList)], environ := [], prefixes := pfx, props := none }).map (·.map (·.globCacheSize))
+    = .ok (.error .uiAddrCount) := by rfl
 example : (runGlob 3 10).isPanic = false := by decide
 end Examples
 
